@@ -533,3 +533,49 @@ func AllGoroutines() string {
 		buf = make([]byte, 2*len(buf))
 	}
 }
+
+// StuckGoroutine samples all goroutine stacks twice (gap apart) and reports the
+// stack of a goroutine whose trace contains marker and which is parked in the
+// same blocking state in both samples.  A goroutine that is running / runnable,
+// or that moved, is not stuck (slow machine); absent = the work has finished.
+func StuckGoroutine(marker string, gap time.Duration) (stuck bool, stack string) {
+	find := func(dump string) map[string]string {
+		out := map[string]string{}
+		for _, blk := range strings.Split(dump, "\n\n") {
+			if !strings.Contains(blk, marker) {
+				continue
+			}
+			lines := strings.SplitN(blk, "\n", 2)
+			hdr := lines[0] // goroutine 12 [IO wait]:
+			id := hdr
+			if i := strings.Index(hdr, " ["); i > 0 {
+				id = hdr[:i]
+			}
+			out[id] = blk
+		}
+		return out
+	}
+	a := find(AllGoroutines())
+	if len(a) == 0 {
+		return false, ""
+	}
+	time.Sleep(gap)
+	b := find(AllGoroutines())
+	for id, s1 := range a {
+		s2, ok := b[id]
+		if !ok {
+			continue
+		}
+		h := strings.SplitN(s1, "\n", 2)[0]
+		if strings.Contains(h, "[running") || strings.Contains(h, "[runnable") {
+			continue
+		}
+		// compare stacks without the "N minutes" annotation of the header
+		body1 := strings.SplitN(s1, "\n", 2)
+		body2 := strings.SplitN(s2, "\n", 2)
+		if len(body1) == 2 && len(body2) == 2 && body1[1] == body2[1] {
+			return true, s1
+		}
+	}
+	return false, ""
+}
